@@ -243,6 +243,15 @@ class XExprEvaluator(ModelVisitor):
         self.is_x = True
         self.val = None
         
+    def visit_constraint_dynref(self, e):
+        # A reference to a dynamic constraint is not a constant
+        self.is_x = True
+        self.val = None
+        
+    def visit_expr_indexed_dynref(self, e):
+        self.is_x = True
+        self.val = None
+        
     def visit_expr_dynamic(self, e):
         self.is_x = True
         self.val = None
